@@ -55,6 +55,16 @@ def main():
     proof = core.check_property_file(pid)
     if not proof['ok']:
         notes.append('proof obligations not all discharged: ' + json.dumps(proof['theorems']))
+    scan = core.scan_sources()
+    if scan:
+        proof['ok'] = False
+        notes.append('forbidden declarations found in the development: ' + '; '.join(scan[:5]))
+    chk = None
+    if tier == 'thorough':
+        chk = core.coqchk(pid)
+        if not chk['ok']:
+            proof['ok'] = False
+            notes.append('coqchk did not confirm an axiom-free, fully checked development: ' + json.dumps(chk))
 
     boost = (not proof['ok']) or bool(b.get('failed_files')) or bool(b.get('facts', {}).get('changed'))
     try:
@@ -104,7 +114,8 @@ def main():
                checker_cmd='coqc -Q theories HS theories/Properties/%s.v (after make -k in /verif/coq); '
                            'Print Assumptions parsed per theorem' % pid,
                trusted_base=core.TRUSTED_BASE,
-               theorems=proof['theorems'], build_failed_files=b.get('failed_files'),
+               theorems=proof['theorems'], forbidden_declarations=scan, coqchk=chk,
+               build_failed_files=b.get('failed_files'),
                facts=b.get('facts'), notes=notes)
     core.write_evidence(pid, tier, a.seed, cov, res.get('assumptions', []), time.time() - t0, len(violations))
     core.log('%s %s: %d evaluations, %d failures, proof %d/%d, %.1fs' % (
